@@ -76,6 +76,20 @@ CHECKS = {
              "model, the abstract machine, and directly with what GetKeys/Get return.",
         design="7/C14", technique="Coq invariant proof (content liveness) + disk-walk correspondence run",
         note="Fault-free histories without late writes (finding D7 leaks a file until restart). " + NOTE_COMMON),
+    "C15": dict(
+        text="PARTIAL. Theorems (Coq): under readers-writer lock semantics no writer ever shares a lock with another thread in any "
+             "reachable state (C15_mutual_exclusion, induction over acquire/release traces of any length, any number of threads and "
+             "locks); for every assignment of locks to locations, two accesses made under the discipline (the thread holds the "
+             "location's lock, in write mode for a write) never conflict (C15_lockset_sound); fs_db's access table names a protection "
+             "for every shared location class (C15_table_complete). That the compiled code FOLLOWS the table is not a fact about any "
+             "executable model: it is decided by running programs of concurrent groups (every client operation, Begin at all levels, "
+             "Commit/Rollback, collection passes, first use concurrent, 1-3 roots, inline and gRPC) on the harness built with the Go "
+             "race detector; any report with an fs_db frame in an access stack is a violation. Four unprotected location classes were "
+             "found this way on the pinned tree (defects D12 and D13a-c) and repaired by fix: commits.",
+        design="7/C15", technique="Coq proof (lockset discipline implies race freedom) + Go race detector on generated concurrent programs",
+        note="PARTIAL by nature: a data race is a property of memory accesses of the compiled program on a schedule. The theorem "
+             "covers the discipline; the detector covers only schedules that occur in the run (a race on an unobserved schedule is "
+             "missed), and the access table is read from the source. " + NOTE_COMMON),
     "C06": dict(
         text="Theorems (Coq): sequences of fs_db's critical sections (write, repaired commit, rollback, collection, version look-up) "
              "refine the abstract machine, so each takes effect atomically at its step (C06_atomic_steps_linearize); no deadlock: "
